@@ -72,6 +72,13 @@ func (s *sim) inVotingView(hash string) bool {
 	return false
 }
 
+// inVotingViewAfterRefresh re-reads the voting view before looking for the hash.
+func (s *sim) inVotingViewAfterRefresh(hash string) bool {
+	s.drainAll()
+	s.observe()
+	return s.inVotingView(hash)
+}
+
 func powerOfMask(v vset, mask uint32) *big.Int {
 	t := new(big.Int)
 	for _, i := range maskIdx(mask, len(v.Keys)) {
@@ -109,9 +116,23 @@ func (s *sim) basePCP(h uint64, parentHash string, parentRound uint32) (tmconsen
 	prevSet := s.setFor(h - 1)
 	if h == s.vv.Height && s.cv.Height == h-1 {
 		// copy what the node itself holds for its committing round
+		// (an honest proposer can not include a validator twice: the mirror rejects
+		// double signers, so equivocators are kept in the parent's entry only)
 		p := tmconsensus.CommitProof{Round: s.cv.Round, PubKeyHash: string(s.cv.ValidatorSet.PubKeyHash), Proofs: map[string][]gcrypto.SparseSignature{}}
-		for hash, proof := range s.cv.PrecommitProofs {
-			p.Proofs[hash] = proof.AsSparse().Signatures
+		used := map[string]bool{}
+		order := append([]string{parentHash}, sortedKeys(s.cv.PrecommitProofs)...)
+		for _, hash := range order {
+			proof, ok := s.cv.PrecommitProofs[hash]
+			if !ok || p.Proofs[hash] != nil {
+				continue
+			}
+			for _, sg := range proof.AsSparse().Signatures {
+				if used[string(sg.KeyID)] {
+					continue
+				}
+				used[string(sg.KeyID)] = true
+				p.Proofs[hash] = append(p.Proofs[hash], sg)
+			}
 		}
 		return p, prevSet
 	}
@@ -305,17 +326,18 @@ func (s *sim) buildPH(op Op) builtPH {
 
 	pcp, prevSet := s.basePCP(h, string(parentHash), parentRound)
 	if op.V == phWrongPrev && h > s.w.init {
-		// keep the certificate for the real parent: only the link is wrong
-		pcp, prevSet = s.basePCP(h, string(flip(parentHash)), parentRound)
+		// a well-signed certificate for the wrong predecessor (the harness owns all keys)
+		pcp = tmconsensus.CommitProof{Round: parentRound, PubKeyHash: string(prevSet.VS.PubKeyHash), Proofs: map[string][]gcrypto.SparseSignature{}}
+		msg := precommitBytes(h-1, parentRound, string(parentHash))
+		for i, k := range prevSet.Keys {
+			pcp.Proofs[string(parentHash)] = append(pcp.Proofs[string(parentHash)], gcrypto.SparseSignature{KeyID: keyID(i), Sig: sign(k, msg)})
+		}
 	}
 	pcpVariant := op.PCP % pcpVariants
 	if h <= s.w.init {
 		pcpVariant = pcpExact
 	}
 	mainKey := string(parentHash)
-	if op.V == phWrongPrev {
-		mainKey = string(flip(parentHash))
-	}
 	pcp = s.mutatePCP(pcp, prevSet, h, mainKey, pcpVariant)
 
 	next := s.w.plan(h + 1)
@@ -433,14 +455,19 @@ func (s *sim) phTrigger(b builtPH) string {
 		b.Variant == phForgedNextPowers || b.Variant == phWrongPrev || b.Variant == phAnnotated)
 	if h == s.vv.Height && (r == s.vv.Round || r == s.vv.Round+1) && h > s.w.init && acceptable {
 		switch b.PCP {
-		case pcpExtraNil, pcpUnknownKey:
-			for key := range b.PH.Header.PrevCommitProof.Proofs {
-				if _, ok := s.cv.PrecommitProofs[key]; !ok {
-					return "C09-A6"
-				}
-			}
 		case pcpKeyIDLen1, pcpKeyIDLen0:
 			return "C09-A13"
+		}
+		// any block key of the embedded certificate that the committing view lacks
+		// (over-approximation: the certificate may still be rejected before the backfill);
+		// a header naming another predecessor is rejected before the backfill
+		for key := range b.PH.Header.PrevCommitProof.Proofs {
+			if b.Variant == phWrongPrev {
+				break
+			}
+			if _, ok := s.cv.PrecommitProofs[key]; !ok {
+				return "C09-A6"
+			}
 		}
 	}
 	if h == s.cv.Height && r == s.cv.Round && h > s.w.init && acceptable {
@@ -461,6 +488,16 @@ func (s *sim) execPH(op Op) {
 		return
 	}
 	s.rememberPH(b)
+	if op.NS {
+		s.label("ph-not-sent")
+		return
+	}
+	if b.Variant == phAltNext {
+		s.altUsed = true
+	}
+	if b.PCP == pcpBelowQuorum || b.PCP == pcpCorruptSig || b.PCP == pcpWrongRound || b.PCP == pcpWrongPKH {
+		s.label("must-reject-offered")
+	}
 	res := s.deliverPH(b.PH)
 	s.lastPHRes = append(s.lastPHRes, res...)
 	s.label(fmt.Sprintf("ph:v%d", b.Variant))
@@ -632,7 +669,11 @@ func (s *sim) voteTrigger(b builtVote) string {
 		return "C09-A3"
 	}
 	future := h > s.vv.Height || (h == s.vv.Height && r > s.vv.Round+1)
-	_, per, short := b.authentic()
+	pairs, per, short := b.authentic()
+	if h > s.vv.Height && pairs > 0 && (s.c.Cfg.ValChange != 0 || s.altUsed) {
+		// verified against the set its PubKeyHash names and stored for a height whose set may differ
+		return "C09-A26"
+	}
 	if future && short {
 		// reaches MergeSparse without the key-id filter (only when the pubkeys can be found)
 		return "C09-A13"
@@ -747,8 +788,19 @@ func (s *sim) execRound(op Op) {
 			return
 		}
 		s.rememberPH(b)
-		s.lastPHRes = append(s.lastPHRes, s.deliverPH(b.PH)...)
+		res := s.deliverPH(b.PH)
+		s.lastPHRes = append(s.lastPHRes, res...)
 		if s.stopped() {
+			return
+		}
+		if len(res) == 0 || (res[0] != tmconsensus.HandleProposedHeaderAccepted && res[0] != tmconsensus.HandleProposedHeaderAlreadyStored) {
+			// honest validators do not vote for a header their own mirror rejected
+			s.label("macro-round-ph-rejected")
+			return
+		}
+		if res[0] == tmconsensus.HandleProposedHeaderAlreadyStored && !s.inVotingViewAfterRefresh(string(b.PH.Header.Hash)) {
+			// same signature as a stored proposal but another block hash: not this header
+			s.label("macro-round-ph-shadowed")
 			return
 		}
 		hash = string(b.PH.Header.Hash)
@@ -759,6 +811,9 @@ func (s *sim) execRound(op Op) {
 	}
 	if pc == 0 {
 		pc = fullMask(n)
+	}
+	if !exceedsTwoThirds(powerOfMask(set, pc), set.total()) {
+		s.label("must-reject-offered")
 	}
 	for kind, mask := range []uint32{ps, pc} {
 		msg := voteBytes(kind, h, r, hash)
@@ -902,6 +957,9 @@ func (s *sim) replayTrigger(b builtReplay) string {
 	if b.R < s.vv.Round {
 		return "C09-A9"
 	}
+	if b.R >= s.vv.Round+2 {
+		return "C09-A25"
+	}
 	if len(b.Header.ValidatorSet.Validators) == 0 {
 		for hash := range b.Proof.Proofs {
 			if _, ok := s.vv.PrecommitProofs[hash]; !ok || b.R != s.vv.Round {
@@ -951,6 +1009,9 @@ func (s *sim) execReplay(op Op) {
 	s.settle(cr)
 	if !s.callOutcome(cr, nil, "ReplayedHeader", fmt.Sprintf("h=%d r=%d v=%d", b.H, b.R, b.Variant)) {
 		return
+	}
+	if b.Variant != rvHonest && b.Variant != rvExtraNil {
+		s.label("must-reject-offered")
 	}
 	s.lastReplay = append(s.lastReplay, replayOutcome{Step: s.step, B: b, Err: out.Err, Done: got})
 	s.label(fmt.Sprintf("replay:v%d:ok=%v", b.Variant, got && out.Err == nil))
@@ -1181,7 +1242,33 @@ func (s *sim) execCrash(op Op) {
 	s.label("crash-now")
 }
 
+// restartTrigger: findings that a restart on the current store contents would hit.
+func (s *sim) restartTrigger() string {
+	if s.alive && s.cv.Height > 0 {
+		// two precommit targets share the maximal power in the committing round
+		// (only possible with >= 1/3 double-signing power)
+		_, _, per, _, _ := recomputeSummary(s.setFor(s.cv.Height), nil, s.cv.PrecommitProofs)
+		var best *big.Int
+		ties := 0
+		for _, p := range per {
+			switch {
+			case best == nil || p.Cmp(best) > 0:
+				best, ties = p, 1
+			case p.Cmp(best) == 0:
+				ties++
+			}
+		}
+		if ties > 1 {
+			return "C09-A27"
+		}
+	}
+	return ""
+}
+
 func (s *sim) execRestart(op Op) {
+	if s.skipKnown(s.restartTrigger()) {
+		return
+	}
 	if s.alive {
 		s.stop()
 	}
